@@ -1288,6 +1288,22 @@ func (c *Ctx) decodedBoundRule(rule string) int {
 						d.other = true
 					}
 					return
+				case *ssa.FieldAddr:
+					// a field of a working record of the package (not a decoded structure): whatever is stored
+					// into that field anywhere (a summary record carrying the firmware length)
+					t := cell.X.Type()
+					if p, ok := t.Underlying().(*types.Pointer); ok {
+						t = p.Elem()
+					}
+					if nt, ok := t.(*types.Named); ok && nt.Obj().Pkg() != nil && strings.HasSuffix(nt.Obj().Pkg().Path(), "/ovmf") {
+						vals := flow.NewSlicer(c.P).FieldStores(flow.StructFieldKey(cell.X.Type(), cell.Field))
+						if len(vals) > 0 && depth < 8 {
+							for _, sv := range vals {
+								collect(sv, d, depth+1, seen)
+							}
+							return
+						}
+					}
 				}
 			}
 			d.other = true
